@@ -601,6 +601,8 @@ class CallMixin:
             st, z3.Not(z3.And(is_VRef(recv), cls_in(st.heap.cls(ref(recv)), clsname)))):
           ctr = c
     if ctr is not None:
+      if getattr(ctr, 'is_static', False):
+        return self.call_contract(ctr, pos, kw, st, node)
       return self.call_contract(ctr, [recv] + pos, kw, st, node)
     m = getattr(self, 'me_' + name, None)
     if m is None:
@@ -713,6 +715,16 @@ class CallMixin:
       h2 = h2.set('llen', z3.Store(h2.get('llen'), r, n + 1))
       return [Res(s.with_heap(h2), VNone)]
     return self.class_fork(recv, st, [(('list',), go)], node, '.append()')
+
+  def me_clear(self, recv, pos, kw, st, node):
+    trusted('list.clear / dict.clear')
+    def go_list(s):
+      r = ref(recv)
+      return [Res(s.hset('llen', z3.Store(s.heap.get('llen'), r, z3.IntVal(0))), VNone)]
+    def go_dict(s):
+      r = ref(recv)
+      return [Res(s.hset('dhas', z3.Store(s.heap.get('dhas'), r, z3.K(Val, z3.BoolVal(False)))), VNone)]
+    return self.class_fork(recv, st, [(('list',), go_list), (('dict', 'set'), go_dict)], node, '.clear()')
 
   def me_add(self, recv, pos, kw, st, node):
     def go(s):
